@@ -268,6 +268,8 @@ def _bare_use(v):
                 return True
             if len(x) == 3 and x[0] == 'app' and x[1] == 'cast' and x[2] and x[2][0] == S('mask'):
                 return False
+            if len(x) == 3 and x[0] == 'attr' and x[1] == ('sym', 'mask') and x[2] in ('shape', 'ndim', 'size'):
+                return False            # the geometry of the array does not depend on its values
             return any(walk(i) for i in x)
         return False
     return walk(v)
